@@ -35,7 +35,10 @@ def run_replay(scn, profiles=('dev', 'release')):
             return {'reproduced': False, 'detail': 'replay build failed: %s' % str(e)[-400:]}
         p = subprocess.run([exe, scn['scenario'], json.dumps(scn.get('cex', {}))], capture_output=True, text=True,
                            timeout=600)
-        line = (p.stdout.strip().split('\n') or [''])[-1]
+        # the verdict is the first line starting with REPRODUCED / NOT-REPRODUCED (panic messages may span several lines)
+        lines = p.stdout.strip().split('\n') or ['']
+        verdicts = [i for i, l in enumerate(lines) if l.startswith('REPRODUCED') or l.startswith('NOT-REPRODUCED')]
+        line = ' '.join(x.strip() for x in lines[verdicts[-1]:]) if verdicts else lines[-1]
         rep = line.startswith('REPRODUCED')
         if p.returncode == 101 and not rep:
             # the scenario itself panicked: a panic of the code under test counts only when the scenario says so
